@@ -210,8 +210,14 @@ func init() {
 		if f == nil {
 			return e.vfsErr("remove", p, "no such file or directory", true)
 		}
-		e.vMutating()
+		crash := e.vMutating()
+		if crash && e.choice(0, 1) == 0 {
+			e.vCrash("Remove (before)")
+		}
 		e.vRemove(f)
+		if crash {
+			e.vCrash("Remove (after)")
+		}
 		return Iface{}
 	})
 	reg("os.Open", func(e *Exec, args []Value, fn *ssa.Function) Value {
